@@ -46,9 +46,10 @@ Leaving(ns, n) == /\ \E x \in DRange(cfg.pods) : x.ns = ns /\ x.name = n
 LeavingPods == {x.name : x \in {y \in DRange(cfg.pods) : Leaving(y.ns, y.name)}}
 Migrating(c) == MigratingC(c, LeavingPods)
 EffDra == EffD(cfg.dra, LeavingPods)
-(* Witness class of known finding F-C17-1: a published device on which EVERY pod consumer (over all claims holding it) is   *)
-(* leaving, although a claim that does not migrate (no pod consumers at all, or a non-pod consumer) holds it too.  IgnDra      *)
-(* additionally forgets the allocations on such devices; a failure that disappears under IgnDra belongs to this class.         *)
+(* Witness class of findings F-C17-1..3 (fixed in /repo 576ecc993; the class keeps a regression of that fix apart from      *)
+(* other failures): a published device on which EVERY pod consumer (over all claims holding it) is leaving, although a       *)
+(* claim that does not migrate (no pod consumers at all, or a non-pod consumer) holds it too.  IgnDra additionally forgets    *)
+(* the allocations on such devices; a failure that disappears under IgnDra belongs to this class.                            *)
 AllocKeys(c) == {<<c.alloc[i].driver, c.alloc[i].pool, c.alloc[i].device>> : i \in DOMAIN c.alloc}
 Mixed(k) == LET cs == {c \in DRange(cfg.dra.claims) : k \in AllocKeys(c)} IN
             /\ \E c \in cs : ~Migrating(c)
